@@ -386,7 +386,9 @@ func runC09(c *Ctx) {
 		cross := elementRefChains(w)
 		c.Count(fmt.Sprint(worldJSON(w)), cross)
 		c.Hit("family:" + fam.name)
-		o := expOpts{Skip: true}
+		// AbsoluteCircularRef is documented to matter for circular references only: in skip-schemas mode no schema is
+		// followed, so the outcome must not depend on it
+		o := expOpts{Skip: true, Absolute: i%3 == 2}
 		cs := map[string]interface{}{"world": worldJSON(w), "options": o.String(), "family": fam.name}
 		in := normRootDoc(w)
 		res := expandWorld(w, o)
